@@ -370,6 +370,66 @@ def thread_pair(acc, pair, tier):
         acc.caps.append({"thread-pair": pair, "cap": 4000})
 
 
+def mapping_node_identity(acc):
+    """Bound values reach the node function as the very object that was bound - also when the graph is the inner graph of
+    a MAPPING node (depth 1 and 2), for every clone setting, every item and repeated runs, both runners; and runner.map."""
+    from hypergraph import AsyncRunner, SyncRunner
+
+    from ..dsl import run_async, run_sync
+
+    obj = ["BOUND-INNER"]
+    for runner in ("sync", "async"):
+        for depth in (1, 2):
+            for clone in (False, True, ["cfg"], ["other"]):
+                for entry in ("node", "node-renamed", "map"):
+                    if entry == "map" and (depth != 1 or isinstance(clone, list) and clone == ["other"]):
+                        continue
+                    h = H()
+                    seen = []
+
+                    def hook(c, phase):
+                        if "cfg" in c.args:
+                            seen.append(c.args["cfg"] is obj)
+
+                    h.body_hook = hook
+                    inner = T.set_async(T.prog([T.fn("mi", ["x", "cfg", "other"], ["out"], behav={"py": "x"})], name="inr"), runner == "async")
+                    ig = build(inner, h).bind(cfg=obj)
+                    if depth == 2:
+                        from hypergraph import Graph
+
+                        ig = Graph([ig.as_node()], name="mid")
+                    w = {"mapping_node_identity": True}
+                    try:
+                        if entry == "map":
+                            r = SyncRunner() if runner == "sync" else AsyncRunner()
+                            for _ in range(2):
+                                if runner == "sync":
+                                    run_sync(ig, {"x": [1, 2], "other": ["o"]}, h, runner=r, method="map", map_over="x", clone=clone)
+                                else:
+                                    run_async(ig, {"x": [1, 2], "other": ["o"]}, h, None, runner=r, method="map", map_over="x", clone=clone)
+                        else:
+                            from hypergraph import Graph
+
+                            n = ig.as_node().map_over("x", clone=clone)
+                            ins = {"x": [1, 2], "other": ["o"]}
+                            if entry == "node-renamed":
+                                n = n.with_inputs({"cfg": "cfg2", "x": "xs"})
+                                ins = {"xs": [1, 2], "other": ["o"]}
+                            outer = Graph([n])
+                            for _ in range(2):
+                                if runner == "sync":
+                                    run_sync(outer, dict(ins), h)
+                                else:
+                                    run_async(outer, dict(ins), h, None)
+                    except Exception as e:  # noqa: BLE001
+                        acc.violation({"symptom": "run-raised", "mode": "mapping-node"}, w, f"mapping node over a graph with an inner binding (depth {depth}, clone={clone}, {entry}, {runner}): {type(e).__name__}: {str(e)[:150]}")
+                        continue
+                    acc.evaluations += 2
+                    acc.key(("mapping-node-identity", runner, depth, repr(clone), entry))
+                    if len(seen) != 4 or not all(seen):
+                        acc.violation({"symptom": "bound-object-copied", "nested": True, "form": "mapping-node", "clone": repr(clone) if clone in (False, True) else "list"}, w, f"value bound on the inner graph of a mapping node (depth {depth}, clone={clone}, {entry}, {runner}): items received the bound object itself {seen} (expected 4x True)")
+
+
 PAIRS = [("flat", "flat"), ("nested", "nested"), ("flat", "nested")]
 
 
@@ -397,6 +457,8 @@ def run_shard(shard):
             acc.state(("hist-depth", first, n))
         acc.sample({"history": [list(first)] + [list(OPS[(i * 7 + 3) % len(OPS)])]}, 1)
     elif part == "async":
+        if i == 0:
+            mapping_node_identity(acc)
         acc.key(("async-pair", PAIRS[i]))
         async_pair(acc, PAIRS[i], tier)
     else:
@@ -411,7 +473,9 @@ def coverage_extra(acc, tier, seed):
 
 def replay(rep):
     acc = Acc()
-    if rep["kind"] == "history":
+    if rep.get("mapping_node_identity"):
+        mapping_node_identity(acc)
+    elif rep["kind"] == "history":
         check_history(acc, [tuple(o) for o in rep["history"]])
     elif rep["kind"] == "async-pair":
         async_pair(acc, tuple(rep["pair"]), "quick")
